@@ -72,9 +72,9 @@ class RecCache(PickleCache):
         try:
             res = super().load_result_with_meta(storage, task)
         except BaseException as ex:
-            _verif.emit('load', t=task.tid, ok=0, exc=type(ex).__name__)
+            _verif.emit('load', t=task.tid, ok=0, exc=type(ex).__name__, pname=multiprocessing.current_process().name)
             raise
-        _verif.emit('load', t=task.tid, ok=1, v=res.value)
+        _verif.emit('load', t=task.tid, ok=1, v=res.value, pname=multiprocessing.current_process().name)
         return res
 
     def save(self, storage, task, task_result):
@@ -134,6 +134,10 @@ def _emit_logs(task):
                 print(msg, file=sys.stderr)
 
 
+class Rich(list):
+    """A list (compares and JSON-encodes as one) that can carry attributes."""
+
+
 def run_body(task):
     ctx = task.context
     _verif.emit('rbegin', t=task.tid, ppid=os.getppid(), thr=threading.current_thread().name,
@@ -141,7 +145,7 @@ def run_body(task):
                 mark=PARENT_MARK, impid=IMPORT_PID,
                 mp_main=int('__mp_main__' in sys.modules),
                 ctx=ctx_digest(ctx),
-                sigint_ign=int(_sigint_ignored()))
+                sigint_ign=int(_sigint_ignored()), pname=multiprocessing.current_process().name)
     if RIG is not None:
         RIG.on_run_begin(task)
     try:
@@ -159,6 +163,10 @@ def run_body(task):
         if task.beh.split()[0] == 'raise' or task.tid in ((ctx or {}).get('failnow') or ()):
             raise RuntimeError(f'boom {task.tid}')
         value = [task.tid, (ctx or {}).get('epoch', -1), vals]
+        if os.environ.get('LV_RICH'):
+            # a result that carries task objects (the task itself and its dependencies), as a result may
+            value = Rich(value)
+            value.owner, value.deps = task, direct_deps(task)
     except BaseException:
         _verif.emit('rend', t=task.tid, ok=0, v=[])     # run() is left by an exception (also KeyboardInterrupt)
         raise
